@@ -43,6 +43,10 @@ RULE = ('three arms, chosen per run.  sched: 2-3 client tasks (committers, '
         'pack overlapped with >= 1 commit (sched) / the cut lies inside '
         'the pack (crash) / a fault fired (fail); distinct = schedule trace '
         'or image hash or (history, fault)')
+RULE += ('  '
+         'Later additions: a configuration (8 % of the runs) with '
+         'line-level pre-emption inside the pool of read handles only; '
+         'bystander tasks; the serial oracle. ')
 BUDGET = {'quick': {'runs': 1600, 'wall': 300, 'chunk': 10},
           'thorough': {'runs': 90000, 'wall': 1800, 'chunk': 20}}
 ASSUMPTIONS = [
